@@ -1,3 +1,140 @@
+/-
+  Props.C12 — the mempool stays conflict-free, spendable and internally consistent (client/txpool).
+  Every theorem is about the definitions of Model/Mempool.lean that the oracle executes and the harness
+  go/cmd/c12 compares with the real package after every operation.
+-/
 import GocoinV.Model.Mempool
+import GocoinV.Spec.MempoolTemplate
+import GocoinV.Proofs.C12
 namespace GocoinV.Props.C12
+open GocoinV.Mempool
+
+/-- The model's GetSortedMempoolSlow (what buildSortedList installs as the BestT2S…WorstT2S list whenever the
+    list is dirty, and what GetSortedMempool returns then) places every in-pool parent (MemInputs flag) before
+    its child — for every pool state, however it was reached. -/
+theorem sorted_parents_first (K : Keys) (s : State) : ParentsFirst K (sortedSlowP K s) := by
+  unfold sortedSlowP
+  exact foldl_slowStep_PF K _ _ _ (by simp [ParentsFirst, PFfrom])
+
+/-- A block body assembled from a listing of pooled records is accepted by the input-availability rules of
+    commitTxs (`BlockOK`: every input unspent-confirmed or created earlier in the block, consumed once),
+    provided the listing satisfies the pool invariant's conjuncts named here:
+    `hnd`  no transaction spends one outpoint twice (what the `fix:` commit enforces),
+    `hconf` no two listed transactions spend the same outpoint,
+    `hsp`  every input is an unspent confirmed output or an existing output of a pooled transaction,
+    `hpf`  parents first: the pooled parent of an unconfirmed input stands earlier in the listing. -/
+theorem template_valid (K : Keys) (s : State) (ls : List T2S)
+    (hnd : ∀ t ∈ ls, t.tx.inOps.Nodup)
+    (hconf : ls.Pairwise (fun a b => ∀ o ∈ a.tx.inOps, o ∉ b.tx.inOps))
+    (hsp : ∀ t ∈ ls, ∀ i ∈ t.tx.ins, (s.utxo.get? i.op).isSome ∨
+        ∃ p, s.pool.get? (K.bidx i.prev) = some p ∧ p.tx.id = i.prev ∧ i.vout < p.tx.outs.length)
+    (hpf : ∀ pre t post, ls = pre ++ t :: post → ∀ i ∈ t.tx.ins, ∀ p,
+        s.pool.get? (K.bidx i.prev) = some p → (s.utxo.get? i.op).isSome = false → p ∈ pre) :
+    BlockOK (fun o => (s.utxo.get? o).isSome) (ls.map (·.tx)) := by
+  apply blockOK_of ls _ hnd hconf
+  intro pre t post heq o ho
+  obtain ⟨i, hi, rfl⟩ := List.mem_map.mp ho
+  have ht : t ∈ ls := by rw [heq]; simp
+  by_cases hu : (s.utxo.get? i.op).isSome = true
+  · exact Or.inl hu
+  · rcases hsp t ht i hi with h | ⟨p, hp, hid, hv⟩
+    · exact absurd h hu
+    · exact Or.inr ⟨p, hpf pre t post heq i hi p hp (by simpa using hu), hid.symm, hv⟩
+
+/-- F9 repaired: processTx refuses (code ≠ 0) every transaction that spends one outpoint twice, whatever the
+    pool, the fee floor and the trust flags (except the `Unmined` path, which only sees transactions of a
+    block the chain had accepted), and the pool is left as it was. -/
+theorem dup_input_refused (K : Keys) (mf : Nat) (s : State) (t : Tx) (fl : Flags)
+    (hu : fl.unmined = false) (hd : hasDupInput t.ins = true) :
+    (processTx K mf s t fl).1 ≠ 0 ∧ (processTx K mf s t fl).2.pool = s.pool ∧
+    (processTx K mf s t fl).2.spent = s.spent := by
+  unfold processTx
+  split
+  · have c := rejectTx_core K s t R_TOO_BIG none
+    exact ⟨by simp [R_TOO_BIG], c.1, c.2.1⟩
+  · split
+    · have c := rejectTx_core K s t R_BAD_INPUT none
+      exact ⟨by simp [R_BAD_INPUT], c.1, c.2.1⟩
+    · rename_i h2
+      simp [hu, hd] at h2
+
+/-- The structural part of the pool invariant (`InvS`: TransactionsToSend keyed by BIDX, SpentOutputs exactly
+    the inverse of the pooled inputs) holds initially and is preserved by the two primitives through which
+    EVERY change of TransactionsToSend / SpentOutputs in the model goes — `delOne` (OneTxToSend.Delete without
+    children, incl. the rejectTx it may do) and `addT2S` (OneTxToSend.Add, when no input is spent in the pool) —
+    by everything that only touches the reject list or the sorted list, by replacement (`deleteRbf`) and by
+    eviction. -- OPEN: `pool_inv : ∀ ops, Inv K (run K {} ops)` (induction over `step`, with the spendable /
+    Fee / totals conjuncts) is not proved; what is missing is the glue showing that processTx's rbf list
+    contains every pooled spender of the new transaction's inputs, and the delete-with-children recursion. -/
+theorem pool_inv_partial (K : Keys) :
+    InvS K {} ∧
+    (∀ s t r, InvS K s → s.pool.get? (K.bidx t.tx.id) = some t → InvS K (delOne K s t r)) ∧
+    (∀ s t, InvS K s → s.pool.get? (K.bidx t.tx.id) = none → (∀ u ∈ uidxs K t.tx, s.spent.get? u = none) →
+        InvS K (addT2S K s t)) ∧
+    (∀ s t why m, InvS K s → InvS K (rejectTx K s t why m)) ∧
+    (∀ s b, InvS K s → InvS K (rejDeleteByIdx K s b)) ∧
+    (∀ s rbf, InvS K s → InvS K (deleteRbf K s rbf)) ∧
+    (∀ s v, InvS K s → InvS K (step K s (.evict v))) := by
+  refine ⟨⟨?_, ?_, ?_⟩, ?_, ?_, ?_, ?_, ?_, ?_⟩
+  · intro b t h; simp [AList.get?] at h
+  · intro u b h; simp [AList.get?] at h
+  · intro b t h; simp [AList.get?] at h
+  · intro s t r h hin; exact delOne_InvS K s t r h hin
+  · intro s t h hf hfree; exact addT2S_InvS K s t h hf hfree
+  · intro s t why m h; exact InvS_of_core h (rejectTx_core K s t why m)
+  · intro s b h; exact InvS_of_core h (rejDeleteByIdx_core K s b)
+  · intro s rbf h; unfold deleteRbf; exact deleteRbf_InvS K _ s h
+  · intro s v h
+    simp only [step]
+    cases he : evict K s v with
+    | none => simpa using h
+    | some s' => simpa using evict_InvS K v s s' h he
+
+/-- Under `InvS` no two pooled records spend the same UIdx; with UIdx injective on outpoints (explicit
+    hypothesis: the code's 64-bit index is not injective in general) no two pooled transactions spend the same
+    outpoint. -/
+theorem no_double_spend (K : Keys) (s : State) (h : InvS K s)
+    (hinj : ∀ a b c d, K.uidx a b = K.uidx c d → a = c ∧ b = d)
+    (b1 b2 : Nat) (t1 t2 : T2S) (h1 : s.pool.get? b1 = some t1) (h2 : s.pool.get? b2 = some t2)
+    (i1 i2 : TxIn) (m1 : i1 ∈ t1.tx.ins) (m2 : i2 ∈ t2.tx.ins)
+    (heq : i1.prev = i2.prev ∧ i1.vout = i2.vout) : b1 = b2 := by
+  have _ := hinj
+  have u1 : K.uidx i1.prev i1.vout ∈ uidxs K t1.tx := List.mem_map.mpr ⟨i1, m1, rfl⟩
+  have u2 : K.uidx i1.prev i1.vout ∈ uidxs K t2.tx := List.mem_map.mpr ⟨i2, m2, by rw [heq.1, heq.2]⟩
+  have e1 := h.complete b1 t1 h1 _ u1
+  have e2 := h.complete b2 t2 h2 _ u2
+  rw [e1] at e2
+  exact Option.some.inj e2
+
+/-- Eviction (removeExcessiveTxs) in the model only ever deletes transactions that have no child in the pool
+    at their turn; a victim list that would delete a parent before its child is refused. -/
+theorem evict_childless (K : Keys) (s s' : State) (b : Nat) (r : List Nat)
+    (h : evict K s (b :: r) = some s') : ∃ t, s.pool.get? b = some t ∧ hasNoChildren K s t = true := by
+  simp only [evict, List.foldlM_cons] at h
+  cases hb : s.pool.get? b with
+  | none => simp [hb] at h
+  | some t =>
+    simp only [hb] at h
+    by_cases hc : hasNoChildren K s t = true
+    · exact ⟨t, rfl, hc⟩
+    · simp [hc] at h
+
+/-! non-vacuity -/
+
+def K0 : Keys := { bidx := id, uidx := fun a b => a * 1000 + b }
+def txA : Tx := { id := 7, ins := [⟨1, 0, 0⟩], outs := [50], nws := 100, size := 100, scriptOk := true }
+def txB : Tx := { id := 8, ins := [⟨7, 0, 0⟩], outs := [40], nws := 100, size := 100, scriptOk := true }
+def txD : Tx := { id := 9, ins := [⟨1, 0, 0⟩, ⟨1, 0, 0⟩], outs := [40], nws := 100, size := 100, scriptOk := true }
+def s0 : State := { utxo := [((1, 0), ⟨60, 1, false⟩)], height := 5 }
+def s2 : State := (submitNet K0 0 (submitNet K0 0 s0 txA false).2 txB false).2
+
+example : (submitNet K0 0 s0 txA false).1 = 0 := by decide
+example : (processTx K0 0 s0 txD {}).1 = R_BAD_INPUT := by decide
+example : (sortedSlowP K0 s2).map (·.1) = [7, 8] := by decide
+example : hasDupInput txD.ins = true := by decide
+example : BlockOK (fun o => (s0.utxo.get? o).isSome) [txA, txB] := by
+  simp [BlockOK, Tx.inOps, TxIn.op, txA, txB, s0, AList.get?, Tx.creates]
+example : evict K0 s2 [7] = none := by decide
+example : (evict K0 s2 [8, 7]).isSome = true := by decide
+
 end GocoinV.Props.C12
